@@ -462,18 +462,18 @@ func renderFieldType(s []mComb, ci int, f mField) fieldText {
 
 func renderResult(s []mComb, r mRes) (src, canon string) {
 	switch r.K {
-	case "int":
-		return "int", "int"
+	case "int": // TL1 function results cannot be bare
+		return "Int", "Int"
 	case "bool":
 		return "Bool", "Bool"
 	case "vecint":
-		return "(vector int)", "vector int"
+		return "(Vector int)", "Vector int"
 	case "ref":
 		if r.A >= 1 && r.A <= len(s) {
 			return s[r.A-1].typeName(), s[r.A-1].typeName()
 		}
 	}
-	return "int", "int"
+	return "Int", "Int"
 }
 
 // canonicalForm of a model combinator (what its implicit tag is the CRC32 of).
